@@ -372,7 +372,21 @@ impl Sys {
         let t = scratch.root.join("TOP");
         materialise(&t, top);
         roots.push(t);
-        let fs = LayeredFilesystem::new(roots.iter().map(|r| r.display().to_string()).collect(), self.cfg.language(), self.cfg.game()).map_err(|e| e.to_string())?;
+        // the roots are handed over in NON-canonical spellings (a `..` detour, a trailing slash, a
+        // `.` component): what is listed must still be layer-relative
+        let spelled: Vec<String> = roots
+            .iter()
+            .enumerate()
+            .map(|(i, r)| {
+                let name = r.file_name().map(|n| n.to_string_lossy().to_string()).unwrap_or_default();
+                match i % 3 {
+                    0 => format!("{}/../{}", r.display(), name),
+                    1 => format!("{}/", r.display()),
+                    _ => format!("{}/./", r.display()),
+                }
+            })
+            .collect();
+        let fs = LayeredFilesystem::new(spelled, self.cfg.language(), self.cfg.game()).map_err(|e| e.to_string())?;
         Ok(World { _scratch: scratch, roots, fs })
     }
     fn actual(&self, p: &str, loc: bool) -> Option<String> {
